@@ -17,33 +17,33 @@ type Recv struct {
 
 // Client is a simulated Hotline client built on the reference codec.
 type Client struct {
-	W       *World
-	Idx     int
-	Name    string
-	IP      string
-	Port    int
-	Conn    *simnet.Conn
-	Xfers   []*simnet.Conn
-	HSReply []byte // bytes of the handshake answer (up to 8)
-	Raw     []byte // everything received after the handshake answer
-	parsed  int
-	Inbox   []Recv            // non-reply transactions in arrival order
-	Replies map[uint32][]Recv // replies by transaction id (more than one = duplicate)
-	AllRecv []Recv
-	FrameErr  error
-	Closed    bool // server closed / reset the connection
-	CloseErr  error
-	ClosedAt  time.Duration
-	q         simrt.WaitQ
-	nextID    uint32
-	Sent      map[uint32]uint16 // request id -> type
+	W           *World
+	Idx         int
+	Name        string
+	IP          string
+	Port        int
+	Conn        *simnet.Conn
+	Xfers       []*simnet.Conn
+	HSReply     []byte // bytes of the handshake answer (up to 8)
+	Raw         []byte // everything received after the handshake answer
+	parsed      int
+	Inbox       []Recv            // non-reply transactions in arrival order
+	Replies     map[uint32][]Recv // replies by transaction id (more than one = duplicate)
+	AllRecv     []Recv
+	FrameErr    error
+	Closed      bool // server closed / reset the connection
+	CloseErr    error
+	ClosedAt    time.Duration
+	q           simrt.WaitQ
+	nextID      uint32
+	Sent        map[uint32]uint16 // request id -> type
 	SentNoReply []uint32
-	SentStep  map[uint32]uint64
-	UserID    uint16
-	LoggedIn  bool
-	Access    rp.Access
-	reader    *simrt.Thread
-	Final     []rp.User // scenario scratch: last user list fetched
+	SentStep    map[uint32]uint64
+	UserID      uint16
+	LoggedIn    bool
+	Access      rp.Access
+	reader      *simrt.Thread
+	Final       []rp.User // scenario scratch: last user list fetched
 }
 
 // NewClient creates a client (not yet connected).
@@ -300,7 +300,7 @@ func (c *Client) Disconnect() {
 
 // Settle lets everything else run until the system is idle (see DESIGN §2.2): the thread
 // sleeps in simulated time, which only advances when no thread is ready.
-func Settle() { simrt.Sleep(4 * time.Second) }
+func Settle()      { simrt.Sleep(4 * time.Second) }
 func SettleShort() { simrt.Sleep(200 * time.Millisecond) }
 
 // DialXfer opens a transfer connection.
